@@ -32,13 +32,19 @@ variable {K : Type} [Field K] [LinearOrder K] [IsStrictOrderedRing K]
 /-- BoundingBox.overlaps -/
 
 @[gen_def] def bbox_overlaps (l1 b1 r1 t1 l2 b2 r2 t2 : K) : Bool :=
-  if (|(((l1 + r1) * ((1 : K) / 2)) - ((l2 + r2) * ((1 : K) / 2)))| * (2 : K)) > ((r1 - l1) + (r2 - l2)) then
+  if l2 > r1 then
     false
   else
-    if (|(((t1 + b1) * ((1 : K) / 2)) - ((t2 + b2) * ((1 : K) / 2)))| * (2 : K)) > ((t1 - b1) + (t2 - b2)) then
+    if r2 < l1 then
       false
     else
-      true
+      if b2 > t1 then
+        false
+      else
+        if t2 < b1 then
+          false
+        else
+          true
 
 
 /-- BoundingBox.area -/
